@@ -252,7 +252,7 @@ impl<'a> G<'a> {
     }
 
     fn observe(&mut self) {
-        let mut a = self.r.weighted(&[4, 3, 2, 2, 1, 1]) as u32;
+        let mut a = self.r.weighted(&[4, 3, 2, 2, 1, 1, 1]) as u32;
         if (a == 3 || a == 4) && !self.twin {
             if self.en_twin {
                 let tf = self.r.below(self.n as u32 + 1);
@@ -266,7 +266,7 @@ impl<'a> G<'a> {
             }
         }
         let cbs = self.len * self.w * if (2..=4).contains(&a) { 2 } else { 1 };
-        if (a == 0 || a == 5 || a == 1) && self.faulty && self.faults_left > 0 && self.r.chance(1, 4) {
+        if (a == 0 || a == 5 || a == 6 || a == 1) && self.faulty && self.faults_left > 0 && self.r.chance(1, 4) {
             // F8: the formatter sink fails at its k-th write; F9 (a = 1): the hasher unwinds at its k-th write
             self.faults_left -= 1;
             let b = self.r.range(1, 3 * cbs as u32 + 8);
@@ -644,11 +644,15 @@ impl<'a> G<'a> {
                         mf = MF::Flat;
                     }
                 }
-                MF::M => match self.r.weighted(&[4, 4, 2, 2, 2, 2, 2, 2, 2, 2, 1, if nm > 2 { 1 } else { 0 }]) {
+                MF::M => match self.r.weighted(&[4, 4, 2, 2, 2, 2, 2, 2, 2, 2, 1, 1]) {
                     11 => {
                         // truncating conversion to a smaller matrix type; the run ends here
                         let a = self.r.below(2);
-                        self.push(Op::a(OpK::MShrink, a));
+                        if self.r.chance(1, 3) {
+                            self.push(Op::new(OpK::MDiagonal));
+                        } else {
+                            self.push(Op::a(OpK::MShrink, a));
+                        }
                         return false;
                     }
                     10 => {
@@ -668,10 +672,10 @@ impl<'a> G<'a> {
                         }
                     }
                     9 => {
-                        let a = self.r.below(2);
-                        let f = self.fault(if a == 1 { nm * nm } else { nm });
+                        let a = self.r.below(3);
+                        let f = self.fault(if a >= 1 { nm * nm } else { nm });
                         self.push(Op::abf(OpK::MMapRows, a, 0, f));
-                        if f > 0 && (f as usize) <= if a == 1 { nm * nm } else { nm } {
+                        if f > 0 && (f as usize) <= if a >= 1 { nm * nm } else { nm } {
                             // the matrix is gone; the run ends here
                             return false;
                         }
